@@ -403,6 +403,7 @@ def run(ctx):
                  "harness/translate_cacheflags.py (ast -> control skeleton of every method of the three formulation "
                  "classes and RoutingProblem, restricted to accesses to self; local-alias analysis) and the attribute / "
                  "method-name classification tables and the fine-trace -> Cache.v-action monitor of coq/theories/PyCache.v")
+    from props import pysem; pysem.run(ctx, pysem.GROUPS_FOR.get(ctx.pid, ()))
     rng = ctx.rng
     quick = ctx.quick
     # mutation experiments only: VQ_C14_SKIP_ORACLE=1 shows what the trace validation alone reports
